@@ -2,10 +2,11 @@
 Tie: histories mixing edits, grog taint, builds with and without --enable-cache and no-cache targets
 at random graph positions; real binary vs Build.v; model-free oracles on the executed multisets."""
 import json
-import vlib, buildlib as bl, histcheck as hc
+import vlib, buildlib as bl, histcheck as hc, c13w
 
-GUARDS = [("cache-toggle-changes-output-hash", hc.g_cache_never_disabled),
-          ("alias-dep-not-in-key", hc.g_no_alias_deps)]
+# (the class cache-toggle-changes-output-hash, finding C13-F1, is gone: a disabled cache is neither read nor written,
+# C13_cache_off_leaves_cache; a re-execution after a cache-disabled build is a violation)
+GUARDS = [("alias-dep-not-in-key", hc.g_no_alias_deps)]
 
 
 def cur_snap(h, bi):
@@ -20,8 +21,8 @@ def cur_snap(h, bi):
     return cur
 
 
-def plan(features, with_disable):
-    cfg = hc.ALL_CACHE
+def plan(features, with_disable, mode="all"):
+    cfg = {"mode": mode, "cache": True}
 
     def p(h, r):
         notes = []
@@ -33,7 +34,7 @@ def plan(features, with_disable):
         h.build(cfg); notes.append(("tainted", len(h.builds) - 1, tainted))
         h.build(cfg); notes.append(("consumed", len(h.builds) - 1, tainted))
         if with_disable:
-            h.build({"mode": "all", "cache": False}); notes.append(("disabled", len(h.builds) - 1))
+            h.build({"mode": mode, "cache": False}); notes.append(("disabled", len(h.builds) - 1))
             h.build(cfg); notes.append(("after-disabled", len(h.builds) - 1))
         s2, why = bl.edit_snapshot(r, h.snap)
         h.set_sources(s2, why)
@@ -65,10 +66,13 @@ def run(out, tier):
     plans += [("nocache-taint", plan(feats, False))] * n
     plans += [("toggle", plan(feats, True))] * n
     plans += [("full", plan(full, True))] * n
+    # the same with load_outputs=minimal: with the cache disabled nothing is stored, so LoadDependencyOutputs must take the
+    # dependencies it needs from the workspace (they were executed earlier in the same build) and re-run none of them
+    plans += [("toggle-min", plan(full, True, "min"))] * n
     batch = hc.run_batch(plans, vlib.seed())
     hc.check_plan_errors(batch)
     findings = {f["class"]: f for f in vlib.known_findings("C13")}
-    evals = 0
+    evals = c13w.witness_failed_check_keeps_taint(out)
     for name, h, notes, m in batch:
         for note in notes:
             bi = note[1]; b = h.builds[bi]
@@ -110,13 +114,17 @@ def run(out, tier):
                 notrun = sorted(want - starts)
                 if notrun:
                     hc.decide(out, "C13", findings, h, "with the cache disabled %s did not execute" % notrun, predicted, GUARDS)
+                twice = sorted({l for l in b["starts"] if b["starts"].count(l) > 1})
+                if twice:
+                    hc.decide(out, "C13", findings, h, "with the cache disabled %s executed more than once in one build" % twice, predicted, GUARDS)
             elif note[0] == "after-disabled":
                 extra = [l for l in starts if l not in ncl]
                 if extra:
                     hc.decide(out, "C13", findings, h, "after a cache-disabled build with unchanged outputs the next cached build re-executes %s" % sorted(extra), predicted, GUARDS)
     hc.finish(out, "C13", batch,
               "histories: build; taint 1-2 targets; build; build; [build with --enable-cache=false; build]; edit; taint; build -- with "
-              "no-cache targets at random graph positions; non-trivial = at least two operations and two builds", oracle_evals=evals)
+              "no-cache targets at random graph positions, in mode all and (stream toggle-min) in mode minimal; a cached build after a "
+              "cache-disabled one must run nothing but no-cache targets; non-trivial = at least two operations and two builds", oracle_evals=evals)
 
 
 def replay(out, path):
